@@ -35,7 +35,9 @@ class FirFilter:
     def process(self, x: np.ndarray) -> np.ndarray:
         dtype = x.dtype
         x_full = np.concatenate([self.x_prev, x])
-        self.x_prev = x[-(self.N - 1):]
+        # carry the last N-1 samples of everything seen so far
+        n_keep = min(self.N - 1, len(x_full))
+        self.x_prev = x_full[len(x_full) - n_keep:]
         y = self.convolve_valid(x_full, self.h).astype(dtype)
         return y
 
